@@ -314,7 +314,9 @@ def design_flat_parent(r, name):
     if use_vars:
         item = f"#[{pre}from(A{err})] #[{pre}into_existing(A{err} | vars(v0: {{ 5 }}, v1: {{ v0 * 2 }}))] #[ghosts(g: {{ v1 + 1 }})] pub struct S {{ " + ", ".join(src for _, src in fields) + " }"
     else:
-        item = f"#[{pre}from(A{err})] #[{pre}into(A{err})] #[{pre}into_existing(A{err})] pub struct S {{ " + ", ".join(src for _, src in fields) + " }"
+        ia = " | inner_attribute(allow(unused_variables))" if r.random() < 0.4 else ""
+        fa = " | attribute(inline)" if r.random() < 0.3 else ""
+        item = f"#[{pre}from(A{err}{fa})] #[{pre}into(A{err}{ia})] #[{pre}into_existing(A{err}{ia})] pub struct S {{ " + ", ".join(src for _, src in fields) + " }"
     m.derive_src = item
     m.types.append(f"#[derive(o2o)] {DERIVES} " + item)
     aval = {nm: 10 * (i + 1) + 1 for i, nm in enumerate(a_members)}
@@ -703,7 +705,13 @@ def design_subst(r, name):
     return design_enum(r, name) if r.random() < 0.45 else design_flat(r, name)
 
 
-FAMILIES = {"subst": design_subst, "flat7": design_flat7, "flat": design_flat_any, "tree": design_tree_any, "hints": design_tree_hints, "enum": design_enum, "prim": design_prim}
+def design_wf(r, name):
+    """the mix used for C17: programs rustc must accept — nested counterparts of mixed shapes, and bare-#[parent] programs
+    with item / inner attributes (the post-init dialect)"""
+    return design_tree_hints(r, name) if r.random() < 0.5 else design_flat_parent(r, name)
+
+
+FAMILIES = {"wf": design_wf, "subst": design_subst, "flat7": design_flat7, "flat": design_flat_any, "tree": design_tree_any, "hints": design_tree_hints, "enum": design_enum, "prim": design_prim}
 
 
 # ------------------------------------------------------------------------------------------------
